@@ -852,13 +852,13 @@ impl Property for C09 {
     }
 
     fn rule() -> &'static str {
-        "one evaluation = one seeded scenario: a real tree with hostile names, `find START [-sorted] [-depth] TESTS -print0 -exec|-execdir CMD TEMPLATES ; [LATER-TESTS] -printf MARK` where templates carry 0, 1 or several {} per argument, {} embedded in text, and arguments that look like operators; the child-outcome script (exit 0 / 1..255, signals, ENOENT/EACCES/ENOMEM/E2BIG spawn errors) is the fault sequence; in a quarter of the runs the children change the tree (unlink the file, remove or replace a directory about to be entered, create siblings, rename) at a scripted spawn; oracle: over the interleaved history of output records and spawns, every path that reached the action is followed by exactly one spawn with the exact substituted argv (./basename and the parent directory for -execdir), the truth marker follows iff the script said exit 0, find's own status stays 0, and after a mutation every unrelated entry is still evaluated exactly once; also names that are not valid UTF-8, starting points with directory components, template arguments spelled like find's options, a second -exec/-execdir action right after the first, and (no test before the action) every entry of the reference walk must reach it; distinct = distinct abstract trace; non-trivial = a failing child, spawn error or mutation fired, or a template probe hit"
+        "one evaluation = one seeded scenario: a real tree with hostile names, `find START [-sorted] [-depth] TESTS -print0 -exec|-execdir CMD TEMPLATES ; [LATER-TESTS] -printf MARK` where templates carry 0, 1 or several {} per argument, {} embedded in text, and arguments that look like operators; the child-outcome script (exit 0 / 1..255, signals, ENOENT/EACCES/ENOMEM/E2BIG spawn errors) is the fault sequence; in a quarter of the runs the children change the tree (unlink the file, remove or replace a directory about to be entered, create siblings, rename) at a scripted spawn; oracle: over the interleaved history of output records and spawns, every path that reached the action is followed by exactly one spawn with the exact substituted argv (./basename and the parent directory for -execdir), the truth marker follows iff the script said exit 0, find's own status stays 0, and after a mutation every unrelated entry is still evaluated exactly once; also names that are not valid UTF-8, starting points with directory components, template arguments spelled like find's options, a second -exec/-execdir action right after the first, and (no test before the action) every entry of the reference walk must reach it; 1/25 of the runs have real child processes, two thirds of those from a working directory beyond PATH_MAX; 1/150 fill the command line at run time to 300-5200 bytes under what the system accepts (the kernel is asked first); the process environment is a dimension too (variables nobody should listen to such as POSIXLY_CORRECT, TZ with daylight saving, LC_ALL, in a sixth of the runs; descriptor 1 a terminal in a tenth); a slice of the scenarios also goes through the real executables; distinct = distinct abstract trace; non-trivial = a failing child, spawn error or mutation fired, or a template probe hit"
     }
 
     fn components() -> Value {
         json!({
             "real": ["build_matcher_tree: scan for ';', template split", "SingleExecMatcher::matches: substitution, ./name, current_dir, classification of the status", "AndMatcher short-circuit", "process_dir / walkdir on the real (mutating) tree"],
-            "stub": ["fork/exec/wait (fabricated outcomes, hook H2)", "stdout (SimSink)", "the children's effect on the tree (scripted mutator at spawn instants)"]
+            "stub": ["fork/exec/wait (fabricated outcomes, hook H2; real simchild processes in 1/25 of the runs and in the binary cross-check)", "stdout (SimSink)", "the children's effect on the tree (scripted mutator at spawn instants)"]
         })
     }
 
